@@ -95,15 +95,33 @@ Init ==
     /\ sg = [p \in Procs |-> 1] /\ res = [p \in Procs |-> NIL]
     /\ nsel = 0 /\ last = [a |-> "init"]
 
-(* a discovery report replaces the list: one atomic store of a fresh balancer *)
-Replace(I) ==
+(* A discovery report replaces the balancer: one atomic store of a fresh one.  The report need not  *)
+(* change the list: the registry may deliver the instances it delivered before, and every report    *)
+(* without a qualifying instance ends in the static list.  "ipHash and headerHash send equal keys   *)
+(* to the same server while the list is unchanged" speaks of the list, not of the balancer object    *)
+(* built over it: when the rebuilt list is the current list over again (`same`), the keys keep       *)
+(* their servers.  The contract's lists are sets (the order of discovered instances is the           *)
+(* registry's business); `same` is the finer fact "the same servers in the same order" - the least   *)
+(* that "unchanged" can mean - so it implies equal sets, and it is a fact of the environment for     *)
+(* discovered lists (nondeterministic here, observed in a recorded trace), while the static list is   *)
+(* the configured one each time it is fallen back to.  (Ids of static servers and of discovered       *)
+(* instances are distinct in every configuration explored, so lst[gen] = cfg.static identifies a      *)
+(* generation that is the static list.)  Round robin starts over in the new balancer: the fairness    *)
+(* clause counts the selections of one balancer.                                                      *)
+StaticAgain(I) == Tagged(I) = {} /\ lst[gen] = cfg.static
+
+ReplaceAs(I, same) ==
     /\ cfg.disc /\ gen < MaxGen
+    /\ same => NewList(I) = lst[gen]
+    /\ StaticAgain(I) => same
     /\ gen' = gen + 1
     /\ lst' = Append(lst, NewList(I))
     /\ cnt' = Append(cnt, Zero(NewList(I)))
-    /\ sticky' = Append(sticky, NoKeys)
-    /\ last' = [a |-> "rep", insts |-> I, n |-> Cardinality(NewList(I)), fb |-> (Tagged(I) = {})]
+    /\ sticky' = Append(sticky, IF same THEN sticky[gen] ELSE NoKeys)
+    /\ last' = [a |-> "rep", insts |-> I, n |-> Cardinality(NewList(I)), fb |-> (Tagged(I) = {}), same |-> same]
     /\ UNCHANGED <<cfg, pc, key, sg, res, nsel>>
+
+Replace(I) == \E same \in BOOLEAN : ReplaceAs(I, same)
 
 (* ---- a selection by a concurrent caller ---- *)
 Inv(p, k) ==
@@ -305,6 +323,11 @@ Sticky ==
 StickyPick ==
     [][\A p \in Procs : (last'.a \in {"pick", "hpick"} /\ last'.p = p /\ cfg.policy \in {"ipHash", "headerHash"}
                           /\ sticky[sg'[p]][key[p]] # NONE) => res'[p] = sticky[sg'[p]][key[p]]]_vars
+
+(* ... also across a rebuild of the balancer over the unchanged list *)
+StickyRebuild ==
+    [][(last'.a = "rep" /\ gen' = gen + 1 /\ (last'.same \/ (last'.fb /\ lst[gen] = cfg.static)))
+          => (lst'[gen'] = lst[gen] /\ sticky'[gen'] = sticky[gen])]_vars
 
 (* "weightedRandom never picks a zero-weight server when some weight is positive" *)
 NoZeroWeight ==
